@@ -64,7 +64,17 @@ pub enum Op {
     /// const replica: try_random from a tape; others: new(value)
     Random { dst: usize, tape: TapePlan },
     /// const replica: serialize register, medium faults, deserialize
-    PersistRestore { reg: usize, human: bool, bincode: bool, faults: Vec<Fault>, style: Delivery, fail_at: Option<usize> },
+    PersistRestore {
+        reg: usize,
+        human: bool,
+        bincode: bool,
+        faults: Vec<Fault>,
+        style: Delivery,
+        fail_at: Option<usize>,
+        /// replace the stored value by a forged one before restoring: 1 = exactly m, 2 = m + 1, 3 = 2^BITS - 1, 4 = m - 1
+        #[serde(default)]
+        forge: u8,
+    },
     Zeroize { dst: usize },
     /// dst = a ^ (exp mod 2^bits) through pow_bounded_exp (bits <= 64)
     Pow { dst: usize, a: usize, exp: u64, bits: u32 },
@@ -906,11 +916,30 @@ fn run<C: Rep, D: Rep + Monty, B: Rep + Monty>(
                     Guarded::Budget => {}
                 }
             }
-            Op::PersistRestore { reg, human, bincode, faults, style, fail_at } => {
+            Op::PersistRestore { reg, human, bincode, faults, style, fail_at, forge } => {
                 opname = "persist-restore".into();
                 let Some(cs) = c.as_mut() else { continue };
                 let before = cs.regs[*reg].mont();
-                let res = guard(|| const_hooks.persist_restore(&cs.regs[*reg], *human, *bincode, faults, *style, *fail_at));
+                // a forged record: the bytes on the medium denote a chosen stored form (the record of another,
+                // possibly non-canonical, value) — built with from_montgomery, which is exactly what a foreign
+                // writer could have put there
+                let forged: Option<C> = match forge {
+                    0 => None,
+                    k => {
+                        let rr = BigUint::one() << (64 * limbs);
+                        let v = match k {
+                            1 => model.m.clone(),
+                            2 => &model.m + 1u32,
+                            3 => &rr - 1u32,
+                            _ => &model.m - 1u32,
+                        } % &rr;
+                        out.count("fault:medium-forged-record");
+                        Some(C::from_mont(&cs.ctx, &to_words_n(&v, limbs)))
+                    }
+                };
+                let source = forged.as_ref().unwrap_or(&cs.regs[*reg]);
+                let forged_flag = forged.is_some();
+                let res = guard(|| const_hooks.persist_restore(source, *human, *bincode, faults, *style, *fail_at));
                 match res {
                     Guarded::Done((fired, Some(v))) => {
                         for k in &fired {
@@ -920,7 +949,7 @@ fn run<C: Rep, D: Rep + Monty, B: Rep + Monty>(
                         if big(&mont) >= model.m {
                             out.viol(
                                 "C08/restore-noncanonical",
-                                format!("{}:{}", if *bincode { "bincode" } else if *human { "sim-human" } else { "sim-bin" }, if fired.is_empty() { "clean".to_string() } else { fired.join("+") }),
+                                format!("{}:{}", if *bincode { "bincode" } else if *human { "sim-human" } else { "sim-bin" }, if forged_flag { "forged-record".to_string() } else if fired.is_empty() { "clean".to_string() } else { fired.join("+") }),
                                 format!("restore succeeded with stored form {} >= m = {:#x}", hexw(&mont), model.m),
                                 None,
                             );
@@ -948,7 +977,7 @@ fn run<C: Rep, D: Rep + Monty, B: Rep + Monty>(
                         for k in &fired {
                             out.count(&format!("fault:medium-{}", k));
                         }
-                        if fired.is_empty() && fail_at.is_none() {
+                        if fired.is_empty() && fail_at.is_none() && !forged_flag {
                             out.viol("C08/failed-op-changed-state", "persist-restore:clean-record-rejected".into(), "a fault-free record of a canonical register failed to restore".into(), None);
                         } else {
                             out.count("probe:restore-rejected");
@@ -1340,7 +1369,7 @@ fn gen_modulus(r: &mut Xoshiro, limbs: usize) -> Vec<u64> {
     let bits = 64 * limbs;
     let one = BigUint::one();
     let rr = &one << bits;
-    let v: BigUint = match r.below(12) {
+    let v: BigUint = match r.below(13) {
         0 => one.clone(),
         1 => BigUint::from(3u8),
         2 => &rr - 1u32,
@@ -1369,6 +1398,14 @@ fn gen_modulus(r: &mut Xoshiro, limbs: usize) -> Vec<u64> {
         9 => {
             // 2^BITS - small
             &rr - BigUint::from(r.below(1000) * 2 + 1)
+        }
+        10 => {
+            // exactly one or two leading zero bits (where an almost-Montgomery intermediate has the least slack)
+            let lz = r.range(1, 2) as usize;
+            let mut w: Vec<u64> = (0..limbs).map(|_| r.next()).collect();
+            w[0] |= 1;
+            w[limbs - 1] |= 1 << 63;
+            big(&w) >> lz
         }
         _ => {
             let mut w: Vec<u64> = (0..limbs).map(|_| r.next()).collect();
@@ -1466,6 +1503,10 @@ impl TypedScenario for History {
             w[19] = w[19].max(1) * 6;
         }
         w[0] = w[0].max(1);
+        let lz_small = (64 * limbs as u64).saturating_sub(mb.bits());
+        if lz_small >= 1 && lz_small <= 2 {
+            w[21] = w[21].max(2) * 6; // pow on the moduli with least slack
+        }
         let n_ops = r.range(4, 64) as usize;
         let reg = |r: &mut Xoshiro| r.below(REGS as u64) as usize;
         let mut ops = Vec::with_capacity(n_ops);
@@ -1536,6 +1577,7 @@ impl TypedScenario for History {
                         faults,
                         style: *r.pick(&[Delivery::Transient, Delivery::Borrowed, Delivery::Owned]),
                         fail_at: if r.chance(1, 8) { Some(0) } else { None },
+                        forge: if r.chance(1, 4) { r.range(1, 4) as u8 } else { 0 },
                     }
                 }
                 20 => Op::Zeroize { dst: reg(&mut r) },
